@@ -198,6 +198,7 @@ class Module:
         self.func_names = {}
         self.customs = []        # (name, bytes, position) position: 'start'|'end'
         self.data_count = False
+        self.name_pos = "end"      # or "after_import": custom sections may appear between any two sections
 
     def type(self, params, results):
         t = (tuple(params), tuple(results))
@@ -275,6 +276,9 @@ class Module:
                                          for ps, rs in self.types]))
         if self.imports:
             out += self.section(2, vec([name(m) + name(n) + bytes([k]) + d for m, n, k, d in self.imports]))
+        if self.func_names and self.name_pos == "after_import":
+            sub = vec([uleb(i) + name(n) for i, n in sorted(self.func_names.items())])
+            out += self.section(0, name("name") + bytes([1]) + uleb(len(sub)) + sub)
         if self.funcs:
             out += self.section(3, vec([uleb(ti) for ti, _, _ in self.funcs]))
         if self.tables:
@@ -307,7 +311,7 @@ class Module:
                 else:
                     ds.append(b"\x01" + uleb(len(payload)) + payload)
             out += self.section(11, vec(ds))
-        if self.func_names:
+        if self.func_names and self.name_pos != "after_import":
             sub = vec([uleb(i) + name(n) for i, n in sorted(self.func_names.items())])
             out += self.section(0, name("name") + bytes([1]) + uleb(len(sub)) + sub)
         for nm, payload, pos in self.customs:
